@@ -1561,11 +1561,81 @@ def _inline_type_aliases(trees: Dict[str, ast.Module]) -> int:
     return n
 
 
+class _YieldToStore(ast.NodeTransformer):
+    def __init__(self, target: str, as_dict: bool):
+        self.target, self.as_dict, self.ok = target, as_dict, True
+
+    def visit_FunctionDef(self, node):
+        return node
+
+    visit_Lambda = visit_AsyncFunctionDef = visit_FunctionDef
+
+    def visit_Expr(self, node: ast.Expr):
+        if isinstance(node.value, ast.Yield):
+            v = node.value.value
+            if self.as_dict:
+                if not (isinstance(v, ast.Tuple) and len(v.elts) == 2):
+                    self.ok = False
+                    return node
+                return ast.copy_location(ast.Assign(targets=[ast.Subscript(value=ast.Name(id=self.target, ctx=ast.Load()), slice=v.elts[0], ctx=ast.Store())], value=v.elts[1], type_comment=None), node)
+            if v is None:
+                self.ok = False
+                return node
+            return ast.copy_location(ast.Expr(value=ast.Call(func=ast.Attribute(value=ast.Name(id=self.target, ctx=ast.Load()), attr="append", ctx=ast.Load()), args=[v], keywords=[])), node)
+        return self.generic_visit(node)
+
+
+def _inline_local_generators(trees: Dict[str, ast.Module]) -> int:
+    """`def pairs(): for ..: yield k, v` nested in a function and used once as `x = dict(pairs())` / `x = list(pairs())`
+    is the loop that fills x: the def is dropped, `x = {}` / `x = []` and the body with `x[k] = v` / `x.append(e)` in place
+    of the yields stand where the assignment stood. Only for parameterless generators without `return <value>`,
+    `yield from` or an assigned name that the enclosing function uses too."""
+    import copy as _copy
+
+    n_done = 0
+    for t in trees.values():
+        for fn in [x for x in ast.walk(t) if isinstance(x, (ast.FunctionDef, ast.AsyncFunctionDef))]:
+            for blk_owner in [x for x in ast.walk(fn) if hasattr(x, "body") and isinstance(getattr(x, "body"), list)]:
+                body = blk_owner.body
+                gens = [g for g in body if isinstance(g, ast.FunctionDef) and not (g.args.args or g.args.posonlyargs or g.args.kwonlyargs or g.args.vararg or g.args.kwarg) and not g.decorator_list]
+                for g in gens:
+                    inner = [x for st in g.body for x in ast.walk(st)]
+                    if not any(isinstance(x, ast.Yield) for x in inner) or any(isinstance(x, (ast.YieldFrom, ast.FunctionDef, ast.AsyncFunctionDef, ast.Lambda, ast.Global, ast.Nonlocal)) for x in inner) or any(isinstance(x, ast.Return) and x.value is not None for x in inner):
+                        continue
+                    if any(isinstance(x, ast.Yield) and not isinstance(getattr(x, "_p", None), ast.Expr) for x in inner if False):
+                        continue
+                    uses = [x for x in ast.walk(fn) if isinstance(x, ast.Name) and x.id == g.name and isinstance(x.ctx, ast.Load)]
+                    if len(uses) != 1:
+                        continue
+                    site = next((st for st in body if isinstance(st, ast.Assign) and len(st.targets) == 1 and isinstance(st.targets[0], ast.Name) and isinstance(st.value, ast.Call) and isinstance(st.value.func, ast.Name) and st.value.func.id in ("dict", "list") and len(st.value.args) == 1 and not st.value.keywords and isinstance(st.value.args[0], ast.Call) and st.value.args[0].func is uses[0] and not st.value.args[0].args and not st.value.args[0].keywords), None)
+                    if site is None or body.index(site) < body.index(g):
+                        continue
+                    g_stores = {x.id for x in inner if isinstance(x, ast.Name) and isinstance(x.ctx, ast.Store)}
+                    outer_names = {x.id for st in fn.body for x in ast.walk(st) if isinstance(x, ast.Name) and not any(x is y for y in inner)} | {a.arg for a in fn.args.args + fn.args.posonlyargs + fn.args.kwonlyargs}
+                    if g_stores & outer_names:
+                        continue
+                    tgt = site.targets[0].id
+                    as_dict = site.value.func.id == "dict"
+                    conv = _YieldToStore(tgt, as_dict)
+                    new_body = [conv.visit(_copy.deepcopy(st)) for st in g.body if not (isinstance(st, ast.Expr) and isinstance(st.value, ast.Constant))]
+                    if not conv.ok or any(isinstance(x, ast.Yield) for st in new_body for x in ast.walk(st)):
+                        continue
+                    init = ast.copy_location(ast.Assign(targets=[ast.Name(id=tgt, ctx=ast.Store())], value=(ast.Dict(keys=[], values=[]) if as_dict else ast.List(elts=[], ctx=ast.Load())), type_comment=None), site)
+                    i = body.index(site)
+                    body[i:i + 1] = [init] + new_body
+                    body.remove(g)
+                    n_done += 1
+        if n_done:
+            ast.fix_missing_locations(t)
+    return n_done
+
+
 def canonicalise(trees: Dict[str, ast.Module]) -> Dict[str, str]:
     """rename renamed private anchors back (in the trees); returns {canonical name: name used in this tree}"""
     from .matchlower import lower_matches
 
     lower_matches(trees)  # `match` statements are read as the if / elif chains they abbreviate
+    _inline_local_generators(trees)
     for t in trees.values():
         if any(isinstance(x, ast.Return) and isinstance(x.value, ast.IfExp) for x in ast.walk(t)):
             _SplitIfExpReturn().visit(t)
